@@ -75,9 +75,11 @@ def judge_view(view_kept: dict[int, str] | None, view_keys: set[str] | None, occ
     missing or misparsed next to a malformed one."""
     bad: list[tuple[object, str, str]] = []
     seen: set[int] = set()
-    any_malformed = cut
-    pending_wf: list[dict] = []
     codes = {o['code'] for o in occ}
+    # an attribute that occurs twice makes the UPDATE malformed as well (RFC 7606 3.g: all but the first are
+    # discarded): the FIRST occurrence, well-formed, must then be in the announced route with its own value
+    any_malformed = cut or len(codes) < len(occ)
+    pending_wf: list[dict] = []
     has17 = 17 in codes
     for o in occ:
         code = o['code']
